@@ -25,6 +25,8 @@ def run(ctx):
         progs.append(alt({"t": "Scope", "path": path, "ch": kids}, {"t": "ScopeRaw", "path": path, "ch": kids}, "scope_raw"))
         progs.append(alt({"t": "Package", "ch": kids}, {"t": "PackageBuilder", "ch": kids}, "package_builder"))
         progs.append(alt({"t": "Package", "ch": kids}, {"t": "PackageBuilder", "ch": kids, "default": True}, "package_builder_default"))
+    for n in (0, 1, 254, 255, 256, 257, 300):     # the element-count boundary: both paths accept, or both refuse
+        progs.append(alt({"t": "Package", "ch": [{"t": "Zero"}] * n}, {"t": "PackageBuilder", "ch": [{"t": "Zero"}] * n}, "package_builder_count"))
     # body sizes sweeping the PkgLength width boundaries
     sizes = list(range(0, 4201)) if th else list(range(0, 131)) + list(range(4080, 4104))
     for n in sizes:
@@ -40,6 +42,8 @@ def run(ctx):
     # borrowed vs owned strings; platform-width vs 64-bit integers
     for _ in range(2000 if th else 400):
         s = [1 + rng.below(126) for _ in range(rng.choice([0, 1, 4, 30, 200]))]
+        if rng.chance(1, 4):        # trailing / embedded NULs and multi-byte characters: still the same bytes either way
+            s = rng.choice([s + [0], s + [0, 0], [0] + s, s[:2] + [0] + s[2:], s + list("\u00e9".encode("utf-8")), [32] + s + [32]])
         progs.append(alt({"t": "Str", "s": s, "owned": False}, {"t": "Str", "s": s, "owned": True}, "string_owned"))
         v = rng.scalar(8)
         progs.append(alt({"t": "Int", "ty": "usize", "v": v}, {"t": "Int", "ty": "u64", "v": v}, "usize_u64"))
